@@ -1086,6 +1086,15 @@ impl Stdlib for SimEnv {
         w.env.get(name).cloned().unwrap_or_default()
     }
     fn set_env_var(&mut self, name: String, value: String) {
+        // the contract of the real seam (std::env::set_var): "may panic if key is empty,
+        // contains an ASCII equals sign '=' or the NUL character, or when value contains
+        // the NUL character" - it does, on this platform
+        if name.is_empty() || name.contains('=') || name.contains('\0') || value.contains('\0') {
+            panic!(
+                "failed to set environment variable `{:?}` to `{:?}`: Invalid argument (simulated std::env::set_var)",
+                name, value
+            );
+        }
         let mut w = self.world.borrow_mut();
         w.push_event(EventKind::Env {
             set: true,
